@@ -112,7 +112,7 @@ type script struct {
 	kind     byte // 'p' plain, 'd' delta, 'e' enrichment, 'x' an object that is EnrichmentUpdater and DeltaUpdater
 	cfg      int  // 0 not Configurable, 1 Configure ok, 2 Configure fails
 	getOk    bool
-	fmode    int // 0 Unchanged iff prev == src, 1 error, 2 Unchanged, 3 changed
+	fmode    int // 0 Unchanged iff prev == src, 1 error, 2 Unchanged (with the fingerprint src), 3 changed
 	src      int
 	parseOk  bool
 	vulns    []int
@@ -138,7 +138,7 @@ func (sc *script) fetchOutcome(prev int, dead bool) (string, int) {
 	case sc.fmode == 1:
 		return "err", sc.src
 	case sc.fmode == 2:
-		return "unch", prev
+		return "unch", sc.src
 	case sc.fmode == 3:
 		return "ok", sc.src
 	case prev == sc.src:
@@ -365,6 +365,14 @@ func (w *world) mkUpdater(sc *script) driver.Updater {
 
 // ---- updater steps (called by the real manager) ------------------------------
 
+// ctxFollowsRun: the context a step is handed is the run's (through the lock
+// source): once the run is cancelled, it is done. Caller holds w.mu.
+func (w *world) ctxFollowsRun(ctx context.Context, wk *worker, what string) {
+	if w.runs[wk.run].cancelled && ctx.Err() == nil {
+		w.fail("", fmt.Sprintf("updater-context-still-live-after-the-run-was-cancelled run=%d updater=%s step=%s", wk.run, nameStr(wk.sc.name), what))
+	}
+}
+
 func (w *world) fetch(ctx context.Context, sc *script, fp driver.Fingerprint, method byte) (io.ReadCloser, driver.Fingerprint, error) {
 	w.pre(sc, true)
 	w.mu.Lock()
@@ -374,6 +382,7 @@ func (w *world) fetch(ctx context.Context, sc *script, fp driver.Fingerprint, me
 		return nil, "", errors.New("stray")
 	}
 	dead := w.runs[wk.run].cancelled
+	w.ctxFollowsRun(ctx, wk, "fetch")
 	prev := fpNum(fp)
 	res, nfp := sc.fetchOutcome(prev, dead)
 	// the statement, directly: the fingerprint handed to Fetch is the one of
@@ -424,6 +433,7 @@ func (w *world) parse(ctx context.Context, sc *script, rc io.ReadCloser, method 
 		return false
 	}
 	dead := w.runs[wk.run].cancelled
+	w.ctxFollowsRun(ctx, wk, "parse")
 	ok := sc.parseOk && !(sc.ctxAware && dead)
 	if wk.body == nil {
 		if rc != nil {
@@ -496,6 +506,7 @@ func (s *store) GetUpdateOperations(ctx context.Context, kind driver.UpdateKind,
 	}
 	sc := wk.sc
 	dead := w.runs[wk.run].cancelled
+	w.ctxFollowsRun(ctx, wk, "getops")
 	ok := sc.getOk && !(sc.ctxAware && dead)
 	k := "v"
 	if kind == driver.EnrichmentKind {
